@@ -58,6 +58,8 @@ NAME_PERMS = [
     {"A": "alpha", "B": "bravo", "C": "charlie", "D": "delta"},
     {"A": "zeta", "B": "mid", "C": "beta", "D": "alef"},
     {"A": "t9", "B": "t10", "C": "T1", "D": "_t"},
+    # names that are proper prefixes of one another (a selection by several names must not match by prefix)
+    {"A": "Map", "B": "Map_index", "C": "Ma", "D": "Map_index_2"},
 ]
 
 # concrete names of the abstract files, per variant: plain; a decomposed (NFD) name next to its composed (NFC) twin -
